@@ -123,6 +123,11 @@ func genCase(t *rapid.T) Case {
 	} else {
 		o := gen.CircOpts{MinArgs: 2, MaxArgs: 2, MaxWidth: 9, MaxGates: 60,
 			MaxOuts: 4, MaxOutWidth: 5}
+		if rapid.IntRange(0, 5).Draw(t, "wideouts") == 0 {
+			// Many output wires (results of more than 64 bits).
+			o.MaxOutWidth = 40
+			o.MaxGates = 120
+		}
 		c := gen.DrawCirc(t, o)
 		cs.Circ = &c
 		nx, ny = c.In[0], c.In[1]
@@ -238,7 +243,7 @@ func run(cs Case) ev.Outcome {
 		},
 		func() ([]*big.Int, error) {
 			return circuit.Evaluator(eConn, eOT, circ, eIn, false)
-		}, 3*time.Second, 120*time.Second)
+		}, 10*time.Second, 120*time.Second)
 	d.Close()
 
 	desc := fmt.Sprintf("ot=%s x=%s y=%s", kind, cs.X, cs.Y)
